@@ -9,7 +9,8 @@ def restart_pairs(ctx, exe, n):
     and compare the implementation's own traces block by block"""
     hs = []
     while len(hs) < n:
-        h = C.gen_timeout(ctx.rng) if ctx.rng.random() < 0.6 else C.gen_group(ctx.rng)
+        x = ctx.rng.random()
+        h = C.gen_timeout(ctx.rng) if x < 0.45 else C.gen_shared_expiry(ctx.rng) if x < 0.7 else C.gen_group(ctx.rng)
         if any(b == 0 for b in h["blocks"]):
             hs.append(h)
     plain = []
@@ -36,7 +37,8 @@ def restart_pairs(ctx, exe, n):
 def run(ctx):
     import vlib
     gens = [
-        (6, C.gen_timeout),
+        (5, C.gen_timeout),
+        (3, C.gen_shared_expiry),
         (4, C.gen_group),
         (1, lambda r: C.gen_mixed(r, C.W_MIXED, nblocks=r.randrange(4, 10))),
         (1, C.gen_hub),
